@@ -1559,6 +1559,209 @@ def rule_r13(chk, prog):
 
 
 # -------------------------------------------------------------------- R14
+BUILTIN_FUNCS = ('id', 'len', 'min', 'max', 'sum', 'abs', 'all', 'any',
+                 'hash', 'iter', 'next', 'input', 'format', 'sorted',
+                 'print', 'open', 'repr', 'ord', 'chr', 'round', 'divmod',
+                 'pow', 'vars', 'dir', 'callable', 'getattr', 'setattr',
+                 'hasattr', 'isinstance', 'issubclass', 'exit', 'quit',
+                 'compile', 'eval', 'exec', 'globals', 'locals', 'bin',
+                 'hex', 'oct', 'ascii', 'delattr')
+
+
+def builtin_as_data(tree):
+    """Uses of a builtin *function* name that no scope binds, as a
+    subscript index or as an operand of arithmetic / an ordering
+    comparison: [(node, name, context)]."""
+    out = []
+    module_bound = set()
+    for st in tree.body:
+        for x in ast.walk(st) if not isinstance(
+                st, (ast.FunctionDef, ast.ClassDef)) else [st]:
+            if isinstance(x, ast.Name) and isinstance(x.ctx, ast.Store):
+                module_bound.add(x.id)
+            if isinstance(x, (ast.FunctionDef, ast.ClassDef)):
+                module_bound.add(x.name)
+            if isinstance(x, (ast.Import, ast.ImportFrom)):
+                for a in x.names:
+                    module_bound.add((a.asname or a.name).split('.')[0])
+
+    def scope_bound(f):
+        b = {a.arg for a in f.args.args + f.args.kwonlyargs
+             + f.args.posonlyargs}
+        if f.args.vararg:
+            b.add(f.args.vararg.arg)
+        if f.args.kwarg:
+            b.add(f.args.kwarg.arg)
+        for x in ast.walk(f):
+            if isinstance(x, ast.Name) and isinstance(x.ctx, (ast.Store,
+                                                              ast.Del)):
+                b.add(x.id)
+            elif isinstance(x, (ast.FunctionDef, ast.ClassDef)) and \
+                    x is not f:
+                b.add(x.name)
+            elif isinstance(x, ast.ExceptHandler) and x.name:
+                b.add(x.name)
+            elif isinstance(x, (ast.Import, ast.ImportFrom)):
+                for a in x.names:
+                    b.add((a.asname or a.name).split('.')[0])
+        return b
+
+    def visit(node, bound):
+        for c in ast.iter_child_nodes(node):
+            if isinstance(c, (ast.FunctionDef, ast.Lambda)):
+                nb = bound | (scope_bound(c) if isinstance(
+                    c, ast.FunctionDef) else {a.arg for a in c.args.args})
+                visit(c, nb)
+                continue
+            if isinstance(c, (ast.ListComp, ast.SetComp, ast.DictComp,
+                              ast.GeneratorExp)):
+                nb = set(bound)
+                for g in c.generators:
+                    for y in ast.walk(g.target):
+                        if isinstance(y, ast.Name):
+                            nb.add(y.id)
+                visit(c, nb)
+                continue
+            if isinstance(c, ast.Subscript) and isinstance(
+                    c.slice, ast.Name) and c.slice.id in BUILTIN_FUNCS and \
+                    c.slice.id not in bound:
+                out.append((c, c.slice.id, 'subscript index'))
+            if isinstance(c, ast.BinOp):
+                for o in (c.left, c.right):
+                    if isinstance(o, ast.Name) and o.id in BUILTIN_FUNCS \
+                            and o.id not in bound:
+                        out.append((c, o.id, 'arithmetic operand'))
+            if isinstance(c, ast.Compare) and any(
+                    isinstance(op, (ast.Lt, ast.LtE, ast.Gt, ast.GtE))
+                    for op in c.ops):
+                for o in [c.left] + list(c.comparators):
+                    if isinstance(o, ast.Name) and o.id in BUILTIN_FUNCS \
+                            and o.id not in bound:
+                        out.append((c, o.id, 'ordering comparison'))
+            visit(c, bound)
+
+    visit(tree, module_bound)
+    return out
+
+
+def rule_r16(chk, prog):
+    chk.rule('C04.R16', 'no builtin function is used as data (subscript '
+             'index, arithmetic operand, ordering comparison): a local that '
+             'shadowed "id", "len", "sum", ... and was renamed leaves such '
+             'a use behind, which raises TypeError when the line is reached')
+    import os
+    from ..loader import Module
+    n = 0
+    for m in prog.pkg_modules():
+        if 'tests' in m.rel():
+            continue
+        n += 1
+        for (node, name, ctx) in builtin_as_data(m.tree):
+            fn = _fn(node)
+            chk.check('C04.R16', f'{m.name}.'
+                      f'{fn._qualname if fn is not None else ""}', node,
+                      False, f'"{unparse(node)[:60]}" uses the builtin '
+                      f'function {name} as {ctx}: no enclosing scope binds '
+                      f'"{name}" (a renamed loop variable or parameter?), '
+                      'so the line raises TypeError when it is reached - in '
+                      'the main process that is a traceback and exit '
+                      'status 1', loc=m.loc(node), nontrivial=True)
+    fx = os.path.join(os.path.dirname(os.path.dirname(os.path.dirname(
+        os.path.abspath(__file__)))), 'fixtures', 'builtin_as_data.py')
+    if not os.path.isfile(fx):
+        raise AnalysisError('fixture fixtures/builtin_as_data.py missing')
+    fm = Module('fixture', fx, open(fx).read())
+    got = sorted((_fn(nd).name, nm) for (nd, nm, _) in builtin_as_data(
+        fm.tree))
+    if got != [('bad_arith', 'sum'), ('bad_index', 'id')]:
+        raise AnalysisError(f'C04.R16 self-check: fixture judged {got}')
+    chk.instance('C04.R16', 'scope', f'{n} modules examined; fixture: 2 '
+                 'planted uses detected, 2 correct functions accepted', True,
+                 'zero-count rule with positive example')
+
+
+def rule_r17(chk, prog):
+    chk.rule('C04.R17', 'a manager whose proxy is kept in a module global '
+             'is not shut down while that global still refers to the proxy: '
+             'the next reader of the global (the worker function, also when '
+             'it runs in the main process) would talk to a dead manager')
+    n = 0
+    for m in prog.pkg_modules():
+        if 'tests' in m.rel():
+            continue
+        for q, f in m.funcs.items():
+            gl = {x for g in walk_no_nested(f) if isinstance(g, ast.Global)
+                  for x in g.names}
+            mgrs = {st.targets[0].id for st in walk_no_nested(f)
+                    if isinstance(st, ast.Assign) and isinstance(
+                        st.targets[0], ast.Name) and isinstance(
+                            st.value, ast.Call) and (call_name(
+                                st.value) or '').endswith('Manager')}
+            for st in walk_no_nested(f):
+                if isinstance(st, ast.With):
+                    for it in st.items:
+                        if isinstance(it.context_expr, ast.Call) and (
+                                call_name(it.context_expr) or '').endswith(
+                                    'Manager') and isinstance(
+                                        it.optional_vars, ast.Name):
+                            mgrs.add(it.optional_vars.id)
+            if not mgrs:
+                continue
+            proxies = {}
+            for st in walk_no_nested(f):
+                if isinstance(st, ast.Assign) and isinstance(
+                        st.targets[0], ast.Name) and st.targets[0].id in gl \
+                        and isinstance(st.value, ast.Call) and isinstance(
+                            st.value.func, ast.Attribute) and isinstance(
+                                st.value.func.value, ast.Name) and \
+                        st.value.func.value.id in mgrs:
+                    proxies.setdefault(st.value.func.value.id, []).append(
+                        (st.targets[0].id, st))
+            cfg = cfg_of(f)
+            for mg, gs in proxies.items():
+                ends = [c for c in calls_in(f) if isinstance(
+                    c.func, ast.Attribute) and c.func.attr in (
+                        'shutdown', '__exit__') and isinstance(
+                            c.func.value, ast.Name)
+                        and c.func.value.id == mg]
+                withs = [st for st in walk_no_nested(f)
+                         if isinstance(st, ast.With) and any(
+                             isinstance(it.optional_vars, ast.Name)
+                             and it.optional_vars.id == mg
+                             for it in st.items)]
+                for (g, gst) in gs:
+                    n += 1
+                    bad = None
+                    for e in ends:
+                        # the global is rebound after the shutdown on every
+                        # path to the exit
+                        en = expr_owner_node(cfg, e)
+                        INB, OUTB = cfg.must_backward(
+                            gen=lambda n_: ['reset'] if (
+                                n_.kind == 'stmt' and isinstance(
+                                    n_.ast, ast.Assign) and any(
+                                        isinstance(t, ast.Name)
+                                        and t.id == g
+                                        for t in n_.ast.targets)) else [])
+                        if 'reset' not in (OUTB.get(en) or ()):
+                            bad = e
+                    if withs and bad is None:
+                        bad = withs[0]
+                    chk.check('C04.R17', f'{m.name}.{q}', f'{g} = {mg}.'
+                              f'{gst.value.func.attr}()', bad is None,
+                              f'the manager "{mg}" is shut down '
+                              f'("{unparse(bad)[:40] if bad is not None else ""}'
+                              f'") while the module global {g} still holds '
+                              'its proxy: the next use of the global (e.g. '
+                              'the sequential pass that follows a parallel '
+                              'one) raises BrokenPipeError / '
+                              'FileNotFoundError', loc=m.loc(bad or gst),
+                              nontrivial=True)
+    chk.instance('C04.R17', 'scope', f'{n} proxies of locally created '
+                 'managers stored in module globals', True,
+                 'zero-count rule (witness: C04_22)')
+
+
 def rule_r15(chk, prog):
     chk.rule('C04.R15', 'a library call that answers "nothing found" with '
              'None (re.match / search / fullmatch, also on compiled '
@@ -1739,6 +1942,8 @@ def run(tier):
     chk.guard(rule_r13, chk, prog)
     chk.guard(rule_r14, chk, prog)
     chk.guard(rule_r15, chk, prog)
+    chk.guard(rule_r16, chk, prog)
+    chk.guard(rule_r17, chk, prog)
     # an interrupt must reach main()'s handler (status 1): shared with C06.R3
     from . import c06
     sub = Check('C06', 'other', tier, [], [])
